@@ -1,5 +1,656 @@
-//! C02 harness — to be written (see /verif/mc/HARNESS_GUIDE.md).
-fn main() {
-    eprintln!("MACHINERY-ERROR: harness C02 not built yet");
-    std::process::exit(2);
+//! C02 — eigen-decomposition returns genuine eigenvalues and eigenvectors.
+//!
+//! E1 over (matrix, scale, width): every symmetric / general matrix of a small order over a small
+//! integer alphabet (the lattice), plus finite catalogues of structured matrices up to n = 30, each
+//! at power-of-two scales 2^-40 .. 2^40 and in f64 and f32, is given to the real `evd(true)` /
+//! `evd(false)`; the result is judged by definition-level oracles evaluated in f64 (orthonormality,
+//! A V = V D residuals, ordering, conjugate pairing, trace identities, backward-error eigenvector
+//! residuals, exact characteristic polynomials, closed-form spectra of normal matrices).
+
+mod fam;
+mod orc;
+
+use mc_core::oracle::{self as o, Mat};
+use mc_core::{self as mc, json, Harness, Job, Plan, Tier, Value};
+use mc_sc::{dm, rows_of, vec_f64};
+use orc::C;
+use smartcore::linalg::evd::EVDDecomposableMatrix;
+use smartcore::linalg::naive::dense_matrix::DenseMatrix;
+use smartcore::math::num::RealNumber;
+
+struct C02;
+
+// ---- tolerances (units of eps_T, see NOTES.md for the calibration headroom) ----------------------
+const C_SYM_ORTH: f64 = 64.0; // max |V^T V - I| <= 64 n eps
+const C_SYM_RESID: f64 = 64.0; // ||A v_j - d_j v_j||_2 <= 64 n eps ||A||_F
+const C_SYM_SPEC: f64 = 256.0; // |d_i - lambda_i(reference)| <= 256 n eps ||A||_F
+const C_GEN: f64 = 256.0; // traces, eigenvector residuals, pairing, roots, normal spectra
+
+const SIGMA: [i64; 5] = [0, 1, -1, 2, -2];
+const SCALES: [i32; 5] = [0, -40, 40, -20, 20];
+/// seed -> (multiplier, additive quarter offset) applied to the integer alphabet (seed 0 = plain)
+const PERTURB: [(i64, i64); 8] = [(1, 0), (3, 0), (1, 1), (5, 0), (1, 3), (7, 0), (3, 2), (5, 1)];
+
+#[derive(Default)]
+struct RealSep {
+    /// isolating intervals of the eigenvalues at scale 1, ascending (lo == hi: exactly known)
+    intervals: Vec<(f64, f64)>,
+    /// an eigenvalue may be reported up to `slack` outside its interval
+    slack: f64,
+    /// condition number of the true eigenvector matrix (multiplies the residual tolerance)
+    cond: f64,
 }
+
+#[derive(Default)]
+struct Expect {
+    spectrum: Option<Vec<C>>,
+    charpoly: Option<Vec<f64>>,
+    real_sep: Option<RealSep>,
+}
+
+// calibration: worst observed value / tolerance per clause
+const CAL_NAMES: [&str; 10] = ["sym_orth", "sym_resid", "sym_spec", "gen_trace", "gen_trace2", "gen_eigvec", "gen_pairs", "gen_root", "gen_normal_spec", "gen_fullid"];
+const CAL_BUCKETS: [[&str; 5]; 10] = [
+    ["cal.sym_orth>=1/2", "cal.sym_orth>=1/4", "cal.sym_orth>=1/8", "cal.sym_orth>=1/16", "cal.sym_orth>=1/64"],
+    ["cal.sym_resid>=1/2", "cal.sym_resid>=1/4", "cal.sym_resid>=1/8", "cal.sym_resid>=1/16", "cal.sym_resid>=1/64"],
+    ["cal.sym_spec>=1/2", "cal.sym_spec>=1/4", "cal.sym_spec>=1/8", "cal.sym_spec>=1/16", "cal.sym_spec>=1/64"],
+    ["cal.gen_trace>=1/2", "cal.gen_trace>=1/4", "cal.gen_trace>=1/8", "cal.gen_trace>=1/16", "cal.gen_trace>=1/64"],
+    ["cal.gen_trace2>=1/2", "cal.gen_trace2>=1/4", "cal.gen_trace2>=1/8", "cal.gen_trace2>=1/16", "cal.gen_trace2>=1/64"],
+    ["cal.gen_eigvec>=1/2", "cal.gen_eigvec>=1/4", "cal.gen_eigvec>=1/8", "cal.gen_eigvec>=1/16", "cal.gen_eigvec>=1/64"],
+    ["cal.gen_pairs>=1/2", "cal.gen_pairs>=1/4", "cal.gen_pairs>=1/8", "cal.gen_pairs>=1/16", "cal.gen_pairs>=1/64"],
+    ["cal.gen_root>=1/2", "cal.gen_root>=1/4", "cal.gen_root>=1/8", "cal.gen_root>=1/16", "cal.gen_root>=1/64"],
+    ["cal.gen_normal_spec>=1/2", "cal.gen_normal_spec>=1/4", "cal.gen_normal_spec>=1/8", "cal.gen_normal_spec>=1/16", "cal.gen_normal_spec>=1/64"],
+    ["cal.gen_fullid>=1/2", "cal.gen_fullid>=1/4", "cal.gen_fullid>=1/8", "cal.gen_fullid>=1/16", "cal.gen_fullid>=1/64"],
+];
+
+fn calibrating() -> bool {
+    static ON: std::sync::OnceLock<bool> = std::sync::OnceLock::new();
+    *ON.get_or_init(|| std::env::var("MC_CALIB").is_ok())
+}
+
+#[derive(Default)]
+struct Out {
+    /// (clause, what)
+    viols: Vec<(&'static str, String)>,
+    panic: Option<(String, String)>,
+    returned: bool,
+    d: Vec<f64>,
+    e: Vec<f64>,
+    v: Mat,
+    a: Mat,
+    cal: [f64; 10],
+}
+
+impl Out {
+    fn fail(&mut self, clause: &'static str, what: String) {
+        if !self.viols.iter().any(|v| v.0 == clause) {
+            self.viols.push((clause, what));
+        }
+    }
+    /// records observed/tolerance for calibration and returns true when the bound is exceeded
+    fn over(&mut self, cal: usize, observed: f64, tol: f64) -> bool {
+        let bad = !(observed <= tol);
+        let ratio = if observed == 0.0 {
+            0.0
+        } else if tol > 0.0 {
+            observed / tol
+        } else {
+            f64::INFINITY
+        };
+        if ratio > self.cal[cal] || ratio.is_nan() {
+            self.cal[cal] = ratio;
+        }
+        bad
+    }
+}
+
+fn panic_site(comp: &str, p: &mc::PanicInfo) -> String {
+    let m = &p.msg;
+    let kind = if m.contains("add with overflow") {
+        "add"
+    } else if m.contains("subtract with overflow") {
+        "sub"
+    } else if p.is_overflow_check() {
+        "arith"
+    } else if m.contains("Too many iterations") {
+        "no-convergence"
+    } else if m.contains("index out of bounds") || m.contains("out of range") {
+        "index"
+    } else {
+        "other"
+    };
+    format!("{}:panic-{}{}", comp, kind, if p.is_overflow_check() { ":overflow-check" } else { "" })
+}
+
+fn colv(v: &Mat, j: usize) -> Vec<f64> {
+    v.iter().map(|r| r[j]).collect()
+}
+
+/// (||A v - lam v||_2, ||v||_2)
+fn eig_resid(a: &Mat, v: &[f64], lam: f64) -> (f64, f64) {
+    let n = a.len();
+    let mut r = vec![0.0; n];
+    for i in 0..n {
+        let mut s = 0.0;
+        for k in 0..n {
+            s += a[i][k] * v[k];
+        }
+        r[i] = s - lam * v[i];
+    }
+    (o::norm2(&r), o::norm2(v))
+}
+
+fn fmt_mat(a: &Mat) -> String {
+    let rows: Vec<String> = a.iter().map(|r| format!("[{}]", r.iter().map(|x| format!("{}", x)).collect::<Vec<_>>().join(","))).collect();
+    format!("[{}]", rows.join(","))
+}
+
+/// One run of the real solver on `base * 2^sexp` in width T, judged against the statement.
+fn judge<T: RealNumber>(base: &Mat, sym: bool, sexp: i32, exp: &Expect) -> Out {
+    let mut out = Out::default();
+    let s = 2f64.powi(sexp);
+    let scaled: Mat = if sexp == 0 { base.clone() } else { o::scale(base, s) };
+    let m: DenseMatrix<T> = dm::<T>(&scaled);
+    let a: Mat = rows_of(&m); // the actual input, exactly, as f64
+    let n = a.len();
+    let width: u8 = if std::mem::size_of::<T>() == 4 { 32 } else { 64 };
+    let eps = o::eps_of(width);
+    let comp = if sym { "evd.sym" } else { "evd.general" };
+    let r = mc::guard(|| m.evd(sym));
+    out.a = a;
+    let a = &out.a.clone();
+    let evd = match r {
+        Err(p) => {
+            let over = p.is_overflow_check();
+            out.panic = Some((
+                panic_site(comp, &p),
+                format!(
+                    "{} of {} (n={}, {}, scale 2^{}): {}{}",
+                    if sym { "evd(true)" } else { "evd(false)" },
+                    fmt_mat(a),
+                    n,
+                    if width == 32 { "f32" } else { "f64" },
+                    sexp,
+                    p.brief(),
+                    if over { " (only in builds with arithmetic overflow checks, e.g. the dev/test profile; plain release wraps)" } else { "" }
+                ),
+            ));
+            return out;
+        }
+        Ok(Err(e)) => {
+            out.fail("error", format!("evd({}) of {} returned Err({})", sym, fmt_mat(a), e));
+            return out;
+        }
+        Ok(Ok(x)) => x,
+    };
+    out.returned = true;
+    out.d = vec_f64(&evd.d);
+    out.e = vec_f64(&evd.e);
+    out.v = rows_of(&evd.V);
+    let (d, e, v) = (out.d.clone(), out.e.clone(), out.v.clone());
+    let hdr = format!("{} n={} {} scale 2^{} A={}", if sym { "evd(true)" } else { "evd(false)" }, n, if width == 32 { "f32" } else { "f64" }, sexp, fmt_mat(a));
+    if d.len() != n || e.len() != n || o::shape(&v) != (n, n) {
+        out.fail("shape", format!("{}: |d|={} |e|={} V is {:?}", hdr, d.len(), e.len(), o::shape(&v)));
+        return out;
+    }
+    if d.iter().chain(e.iter()).any(|x| !x.is_finite()) {
+        out.fail("non-finite-eigenvalue", format!("{}: d={:?} e={:?}", hdr, d, e));
+        return out;
+    }
+    let fro = o::fro(a);
+    let nf = n as f64;
+    if sym {
+        // ---- imaginary parts all zero, eigenvalues non-increasing (exact comparisons)
+        if e.iter().any(|x| *x != 0.0) {
+            out.fail("imaginary-part-nonzero", format!("{}: e={:?}", hdr, e));
+        }
+        if let Some(i) = (0..n.saturating_sub(1)).find(|&i| d[i] < d[i + 1]) {
+            out.fail("order", format!("{}: d[{}]={:e} < d[{}]={:e}; d={:?}", hdr, i, d[i], i + 1, d[i + 1], d));
+        }
+        if !o::all_finite(&v) {
+            out.fail("non-finite-eigenvector", format!("{}: V={}", hdr, fmt_mat(&v)));
+            return out;
+        }
+        // ---- orthonormal V
+        let od = o::orth_defect(&v);
+        if out.over(0, od, C_SYM_ORTH * nf * eps) {
+            out.fail("not-orthonormal", format!("{}: max|V^T V - I| = {:e} > {:e}; V={}", hdr, od, C_SYM_ORTH * nf * eps, fmt_mat(&v)));
+        }
+        // ---- A V = V diag(d) relative to ||A||
+        let tol = C_SYM_RESID * nf * eps * fro;
+        let mut worst = (0.0f64, 0usize);
+        for j in 0..n {
+            let (r, _) = eig_resid(a, &colv(&v, j), d[j]);
+            if r > worst.0 || r.is_nan() {
+                worst = (r, j);
+            }
+        }
+        if out.over(1, worst.0, tol) {
+            out.fail("residual", format!("{}: ||A v_{} - d_{} v_{}|| = {:e} > {:e}; d={:?} V={}", hdr, worst.1, worst.1, worst.1, worst.0, tol, d, fmt_mat(&v)));
+        }
+        // ---- the values are the eigenvalues: reference spectrum from the oracle's cyclic Jacobi
+        //      (implied by the two clauses above through Weyl's inequality, hence the larger constant)
+        let (refd, _) = o::jacobi_eig(a);
+        let tol = C_SYM_SPEC * nf * eps * fro + 1e-13 * fro;
+        let dev = d.iter().zip(&refd).map(|(x, y)| (x - y).abs()).fold(0.0f64, f64::max);
+        if out.over(2, dev, tol) {
+            out.fail("spectrum", format!("{}: d={:?} but the eigenvalues are {:?} (max deviation {:e} > {:e})", hdr, d, refd, dev, tol));
+        }
+        if let Some(sp) = &exp.spectrum {
+            let mut want: Vec<f64> = sp.iter().map(|z| z.0 * s).collect();
+            want.sort_by(|x, y| y.partial_cmp(x).unwrap());
+            let dev = d.iter().zip(&want).map(|(x, y)| (x - y).abs()).fold(0.0f64, f64::max);
+            if out.over(2, dev, tol) {
+                out.fail("spectrum-closed-form", format!("{}: d={:?} but the closed-form eigenvalues are {:?} (max deviation {:e} > {:e})", hdr, d, want, dev, tol));
+            }
+        }
+    } else {
+        let tol1 = C_GEN * nf * eps * fro;
+        // ---- complex values occur in conjugate pairs
+        let pos: Vec<C> = (0..n).filter(|&i| e[i] > 0.0).map(|i| (d[i], e[i])).collect();
+        let neg: Vec<C> = (0..n).filter(|&i| e[i] < 0.0).map(|i| (d[i], -e[i])).collect();
+        let pd = orc::spectra_distance(&pos, &neg);
+        if out.over(6, pd, tol1) {
+            out.fail("conjugate-pairs", format!("{}: the complex values do not pair up (worst mismatch {:e} > {:e}): d={:?} e={:?}", hdr, pd, tol1, d, e));
+        }
+        // ---- sum = trace(A), sum of squares = trace(A^2)
+        let tr: f64 = (0..n).map(|i| a[i][i]).sum();
+        let mut tr2 = 0.0;
+        for i in 0..n {
+            for j in 0..n {
+                tr2 += a[i][j] * a[j][i];
+            }
+        }
+        let sd: f64 = d.iter().sum();
+        let sq: f64 = (0..n).map(|i| d[i] * d[i] - e[i] * e[i]).sum();
+        if out.over(3, (sd - tr).abs(), tol1) {
+            out.fail("trace", format!("{}: sum of eigenvalues {:e} but trace(A) = {:e} (|diff| {:e} > {:e}); d={:?} e={:?}", hdr, sd, tr, (sd - tr).abs(), tol1, d, e));
+        }
+        let tol2 = C_GEN * nf * eps * fro * fro;
+        if out.over(4, (sq - tr2).abs(), tol2) {
+            out.fail("trace-of-square", format!("{}: sum of squared eigenvalues {:e} but trace(A^2) = {:e} (|diff| {:e} > {:e}); d={:?} e={:?}", hdr, sq, tr2, (sq - tr2).abs(), tol2, d, e));
+        }
+        // ---- every column reported for a real eigenvalue is a non-zero eigenvector (backward-error form)
+        let sep = exp.real_sep.as_ref();
+        for j in 0..n {
+            let real = e[j] == 0.0;
+            if !real && sep.is_none() {
+                continue;
+            }
+            let vj = colv(&v, j);
+            let (clause_zero, clause_nf, clause_res, cal, factor): (&'static str, &'static str, &'static str, usize, f64) =
+                if real { ("eigvec-zero", "eigvec-non-finite", "eigvec-residual", 5, 1.0) } else { ("real-separated-full-identity", "real-separated-full-identity", "real-separated-full-identity", 9, sep.unwrap().cond) };
+            if vj.iter().any(|x| !x.is_finite()) {
+                out.fail(clause_nf, format!("{}: column {} of V (eigenvalue {:e}{:+e}i) is not finite: {:?}", hdr, j, d[j], e[j], vj));
+                continue;
+            }
+            let (r, nv) = eig_resid(a, &vj, d[j]);
+            if nv == 0.0 {
+                out.fail(clause_zero, format!("{}: column {} of V (eigenvalue {:e}{:+e}i) is the zero vector", hdr, j, d[j], e[j]));
+                continue;
+            }
+            let tol = C_GEN * nf * eps * fro * nv * factor;
+            if out.over(cal, r, tol) {
+                out.fail(clause_res, format!("{}: ||A v - d v|| = {:e} > {:e} for column {} (eigenvalue {:e}{:+e}i, v={:?})", hdr, r, tol, j, d[j], e[j], vj));
+            }
+        }
+        // ---- every returned value is a root of the exact characteristic polynomial (backward-error form)
+        if let Some(cp) = &exp.charpoly {
+            let fb = fro / s;
+            for j in 0..n {
+                let z = (d[j] / s, e[j] / s);
+                let pv = orc::poly_abs_at(cp, z);
+                let tol = C_GEN * nf * eps * (orc::cabs(z) + fb).powi(n as i32);
+                if out.over(7, pv, tol) {
+                    out.fail("eigenvalue-not-a-root", format!("{}: |p(lambda)| = {:e} > {:e} for lambda_{} = {:e}{:+e}i, p = det(xI - A/2^{}) = {:?}", hdr, pv, tol, j, d[j], e[j], sexp, cp));
+                }
+            }
+        }
+        // ---- all-real, well-separated spectrum: every eigenvalue sits in its isolating interval
+        if let Some(rs) = sep {
+            let fb = fro / s;
+            if rs.cond * C_GEN * nf * eps * fb < 0.5 * rs.slack {
+                let mut ds: Vec<f64> = d.iter().map(|x| x / s).collect();
+                ds.sort_by(|x, y| x.partial_cmp(y).unwrap());
+                for (i, (lo, hi)) in rs.intervals.iter().enumerate() {
+                    if !(ds[i] >= lo - rs.slack && ds[i] <= hi + rs.slack) {
+                        out.fail("real-separated-spectrum", format!("{}: the {}-th smallest returned real part {:e} is not in [{}, {}] (x 2^{}) where A has exactly one eigenvalue; d={:?} e={:?}", hdr, i, ds[i] * s, lo, hi, sexp, d, e));
+                        break;
+                    }
+                }
+            }
+        }
+        // ---- normal matrices: the spectrum is known in closed form and perfectly conditioned
+        if let Some(sp) = &exp.spectrum {
+            let want: Vec<C> = sp.iter().map(|z| (z.0 * s, z.1 * s)).collect();
+            let got: Vec<C> = (0..n).map(|i| (d[i], e[i])).collect();
+            let mut gap = f64::INFINITY;
+            for i in 0..n {
+                for j in 0..i {
+                    gap = gap.min(orc::cabs((want[i].0 - want[j].0, want[i].1 - want[j].1)));
+                }
+            }
+            let tol = if gap > 4.0 * tol1 { tol1 } else { tol1 * nf };
+            let dist = orc::spectra_distance(&got, &want);
+            if out.over(8, dist, tol + 1e-13 * fro) {
+                out.fail("spectrum-normal-matrix", format!("{}: returned spectrum d={:?} e={:?} differs from the closed-form spectrum {:?} by {:e} > {:e}", hdr, d, e, want, dist, tol));
+            }
+        }
+    }
+    out
+}
+
+fn class_of(width: u8, sexp: i32) -> String {
+    let mut p: Vec<&str> = Vec::new();
+    if width == 32 {
+        p.push("f32");
+    }
+    if sexp > 0 {
+        p.push("scaled-up");
+    } else if sexp < 0 {
+        p.push("scaled-down");
+    }
+    p.join("-")
+}
+
+/// Runs one case, reports violations / counters / digest / description.
+fn exec_case(label: &str, base: &Mat, sym: bool, sexp: i32, width: u8, exp: &Expect, tags: &[&'static str]) {
+    let out = if width == 32 { judge::<f32>(base, sym, sexp, exp) } else { judge::<f64>(base, sym, sexp, exp) };
+    let comp = if sym { "evd.sym" } else { "evd.general" };
+    let n = base.len();
+    if let Some((site, what)) = &out.panic {
+        mc::violation(site.clone(), what.clone());
+        mc::count(if sym { "sym_panicked" } else { "gen_panicked" });
+    }
+    if !out.viols.is_empty() {
+        // input class: does the same clause already fail for the plain f64 input at scale 1?
+        let reference = if width == 32 || sexp != 0 { Some(judge::<f64>(base, sym, 0, exp)) } else { None };
+        for (clause, what) in &out.viols {
+            let only = match &reference {
+                Some(r) if r.panic.is_none() && !r.viols.iter().any(|v| v.0 == *clause) => format!(":{}-only", class_of(width, sexp)),
+                _ => String::new(),
+            };
+            mc::violation(format!("{}:{}{}", comp, clause, only), what.clone());
+        }
+    }
+    // ---- non-vacuity counters (all decided from the input or the returned values)
+    let a = &out.a;
+    if out.returned {
+        mc::count(if sym { "sym_returned" } else { "gen_returned" });
+        if width == 32 {
+            mc::count("f32_cases");
+        }
+        if sexp != 0 {
+            mc::count("scaled_cases");
+        }
+        let fro = o::fro(a);
+        let offdiag = (0..n).any(|i| (0..n).any(|j| i != j && a[i][j] != 0.0));
+        if sym {
+            if n >= 2 && (1..n).any(|k| (0..k).all(|i| (k..n).all(|j| a[i][j] == 0.0))) {
+                mc::count("sym_direct_sum");
+            }
+            if n >= 2 && (0..n - 1).all(|j| a[n - 1][j] == 0.0) {
+                mc::count("sym_tred2_zero_scale_row");
+            }
+            if fro > 0.0 && out.d.windows(2).any(|w| (w[0] - w[1]).abs() <= 1e-9 * fro) {
+                mc::count("sym_repeated_eigenvalue");
+            }
+            if fro > 0.0 && out.d.iter().any(|x| x.abs() <= 1e-9 * fro) {
+                mc::count("sym_singular");
+            }
+            if out.d.iter().any(|x| *x < 0.0) && out.d.iter().any(|x| *x > 0.0) {
+                mc::count("sym_indefinite");
+            }
+        } else {
+            let nc = out.e.iter().filter(|x| **x != 0.0).count();
+            if nc > 0 {
+                mc::count("gen_complex_pair_cases");
+            }
+            if nc >= 4 {
+                mc::count("gen_two_complex_pairs");
+            }
+            mc::count_n("gen_real_columns_checked", (n - nc) as u64);
+            if nc > 0 && nc < n {
+                mc::count("gen_mixed_real_complex");
+            }
+            if orc::balancing_nontrivial(a) {
+                mc::count("gen_balancing_nontrivial");
+            }
+            if exp.real_sep.is_some() {
+                mc::count("gen_certified_real_separated");
+            }
+            if n >= 3 && (2..n).any(|j| a[j][0].abs() > a[1][0].abs()) {
+                mc::count("gen_elmhes_pivot_candidate");
+            }
+            if n >= 3 && (2..n).any(|i| (0..i - 1).any(|j| a[i][j] != 0.0)) {
+                mc::count("gen_not_hessenberg");
+            }
+            if fro > 0.0 && (0..n).any(|i| (0..i).any(|j| orc::cabs((out.d[i] - out.d[j], out.e[i] - out.e[j])) <= 1e-6 * fro)) {
+                mc::count("gen_repeated_eigenvalue");
+            }
+            if fro == 0.0 {
+                mc::count("gen_zero_matrix");
+            }
+        }
+        for t in tags {
+            mc::count(t);
+        }
+        if offdiag {
+            mc::nontrivial();
+        }
+        let s = 2f64.powi(sexp);
+        let dn: Vec<f64> = out.d.iter().map(|x| x / s).collect();
+        let en: Vec<f64> = out.e.iter().map(|x| x / s).collect();
+        mc::outcome(mc::hash::mix(mc::hash::h_u64s(&[sym as u64, width as u64, n as u64]), mc::hash::mix(mc::hash::h_f64s_rounded(&dn, 9), mc::hash::h_f64s_rounded(&en, 9))));
+        if calibrating() {
+            for (k, r) in out.cal.iter().enumerate() {
+                let b = [0.5, 0.25, 0.125, 0.0625, 0.015625];
+                if let Some(i) = b.iter().position(|t| *r >= *t) {
+                    mc::count(CAL_BUCKETS[k][i]);
+                    if i <= 1 && std::env::var("MC_CALIB").as_deref() == Ok("2") {
+                        eprintln!("[calib] {} ratio {:.3} : {} n={} sym={} 2^{} f{} A={}", CAL_NAMES[k], r, label, n, sym, sexp, width, fmt_mat(&out.a));
+                    }
+                }
+            }
+        }
+    } else if out.panic.is_some() {
+        mc::outcome(mc::hash::h_str("panic"));
+    }
+    mc::describe(|| {
+        json!({
+            "case": label, "solver": if sym { "evd(true)" } else { "evd(false)" }, "n": n, "width": if width == 32 { "f32" } else { "f64" },
+            "scale": format!("2^{}", sexp), "A": out.a, "returned": out.returned, "d": out.d, "e": out.e, "V": out.v,
+            "panic": out.panic.as_ref().map(|p| p.1.clone()), "violated_clauses": out.viols.iter().map(|v| v.0).collect::<Vec<_>>(),
+        })
+    });
+}
+
+// ------------------------------------------------------------------------------------------------
+// lattice
+
+fn positions(shape: &str, sym: bool, n: usize) -> Vec<(usize, usize)> {
+    let mut p = Vec::new();
+    for i in 0..n {
+        for j in 0..n {
+            let keep = match (shape, sym) {
+                ("full", true) => j >= i,
+                ("full", false) => true,
+                ("tridiag", true) => j == i || j == i + 1,
+                ("hess", false) => j + 1 >= i,
+                _ => panic!("unknown lattice shape {} (sym={})", shape, sym),
+            };
+            if keep {
+                p.push((i, j));
+            }
+        }
+    }
+    p
+}
+
+fn lattice_case(job: &Job) {
+    let (sym, n, k) = (job.b("sym"), job.u("n"), job.u("k"));
+    let (sexp, width) = (job.i("sexp") as i32, job.u("width") as u8);
+    let (mul, add) = (job.i("mul"), job.i("add"));
+    let shape = job.s("shape");
+    let pos = positions(shape, sym, n);
+    let lead: Vec<usize> = job.params["lead"].as_array().map(|a| a.iter().map(|x| x.as_u64().unwrap() as usize).collect()).unwrap_or_default();
+    let mut ib = vec![vec![0i64; n]; n];
+    for (t, &(i, j)) in pos.iter().enumerate() {
+        let idx = if t < lead.len() { lead[t] } else { mc::choose(k) };
+        let val = if add == 0 { mul * SIGMA[idx] } else { 4 * mul * SIGMA[idx] + add };
+        ib[i][j] = val;
+        if sym {
+            ib[j][i] = val;
+        }
+    }
+    let base: Mat = ib.iter().map(|r| r.iter().map(|x| *x as f64).collect()).collect();
+    let sexp_eff = if add == 0 { sexp } else { sexp - 2 };
+    let mut exp = Expect::default();
+    if !sym {
+        let cp = orc::charpoly_int(&ib);
+        let radius = ib.iter().map(|r| r.iter().map(|x| x.abs()).sum::<i64>()).max().unwrap_or(0);
+        if let Some((iv, h)) = orc::real_separated(&cp, radius) {
+            // tiny integer matrices with gaps >= h: the eigenvector matrix is well conditioned, no cond factor
+            exp.real_sep = Some(RealSep { intervals: iv, slack: 0.5 * h, cond: 1.0 });
+        }
+        exp.charpoly = Some(cp.iter().map(|x| *x as f64).collect());
+    }
+    exec_case("lattice", &base, sym, sexp_eff, width, &exp, &[]);
+}
+
+fn family_case(job: &Job) {
+    let (sym, n) = (job.b("sym"), job.u("n"));
+    let fam_name = job.s("fam");
+    let seed = job.i("seed") as u64;
+    let thorough = job.b("thorough");
+    let scales: Vec<i32> = job.params["scales"].as_array().unwrap().iter().map(|x| x.as_i64().unwrap() as i32).collect();
+    let nv = if sym { fam::sym_variants(fam_name, n) } else { fam::gen_variants(fam_name, n, thorough) };
+    let v = mc::choose(nv);
+    let sexp = mc::pick(&scales);
+    let width = mc::pick(&[64u8, 32u8]);
+    let c = if sym { fam::sym_case(fam_name, n, v, seed) } else { fam::gen_case(fam_name, n, v, seed) };
+    let mut exp = Expect { spectrum: c.spectrum.clone(), charpoly: c.charpoly.clone(), real_sep: None };
+    if let Some(eigs) = &c.real_sep {
+        let mut sorted = eigs.clone();
+        sorted.sort_by(|x, y| x.partial_cmp(y).unwrap());
+        let cond = if c.tags.contains(&"gen_fam_normal") { 1.0 } else { orc::eigvec_cond(&c.a, &sorted) };
+        exp.real_sep = Some(RealSep { intervals: sorted.iter().map(|x| (*x, *x)).collect(), slack: 0.25, cond: cond.max(1.0) });
+    }
+    exec_case(&c.desc, &c.a, sym, sexp, width, &exp, &c.tags);
+}
+
+fn lattice_jobs(jobs: &mut Vec<Job>, sym: bool, shape: &str, n: usize, k: usize, variants: &[(i32, u8)], target: u64, seed: u64) {
+    let (mul, add) = PERTURB[(seed % 8) as usize];
+    let npos = positions(shape, sym, n).len();
+    let mut lead_len = 0usize;
+    while (k as u64).pow((npos - lead_len) as u32) > target && lead_len < npos {
+        lead_len += 1;
+    }
+    let mut leads: Vec<Vec<usize>> = vec![Vec::new()];
+    for _ in 0..lead_len {
+        leads = leads.iter().flat_map(|l| (0..k).map(move |x| { let mut m = l.clone(); m.push(x); m })).collect();
+    }
+    for &(sexp, width) in variants {
+        for l in &leads {
+            let name = format!(
+                "lat-{}-{}-n{}-k{}-s{}-f{}{}",
+                if sym { "sym" } else { "gen" },
+                shape,
+                n,
+                k,
+                sexp,
+                width,
+                if l.is_empty() { String::new() } else { format!("-lead{}", l.iter().map(|x| x.to_string()).collect::<String>()) }
+            );
+            jobs.push(Job::new(name, json!({"kind": "lat", "sym": sym, "shape": shape, "n": n, "k": k, "sexp": sexp, "width": width, "lead": l, "mul": mul, "add": add})));
+        }
+    }
+}
+
+impl Harness for C02 {
+    fn id(&self) -> &'static str {
+        "C02"
+    }
+
+    fn plan(&self, tier: Tier, seed: u64) -> Plan {
+        let t = tier.is_thorough();
+        let scales: Vec<i32> = if t {
+            SCALES.to_vec()
+        } else {
+            let pr = [(-40, 40), (-20, 20), (-40, 20), (-20, 40)][(seed % 4) as usize];
+            vec![0, pr.0, pr.1]
+        };
+        let variants: Vec<(i32, u8)> = scales.iter().flat_map(|s| [(*s, 64u8), (*s, 32u8)]).collect();
+        let unit: Vec<(i32, u8)> = vec![(0, 64), (0, 32)];
+        let target: u64 = if t { 2_000_000 } else { 150_000 };
+        let mut jobs: Vec<Job> = Vec::new();
+        // ---- lattices, simplest first
+        for n in 1..=3 {
+            lattice_jobs(&mut jobs, true, "full", n, 5, &variants, target, seed);
+        }
+        for n in 1..=2 {
+            lattice_jobs(&mut jobs, false, "full", n, 5, &variants, target, seed);
+        }
+        // ---- structured families
+        let nmax = if t { 30 } else { 12 };
+        for n in 1..=nmax {
+            for f in fam::SYM_FAMILIES {
+                if fam::sym_variants(f, n) > 0 {
+                    jobs.push(Job::new(format!("fam-sym-{}-n{}", f, n), json!({"kind": "fam", "sym": true, "fam": f, "n": n, "seed": seed, "scales": scales, "thorough": t})));
+                }
+            }
+            for f in fam::GEN_FAMILIES {
+                if fam::gen_variants(f, n, t) > 0 {
+                    jobs.push(Job::new(format!("fam-gen-{}-n{}", f, n), json!({"kind": "fam", "sym": false, "fam": f, "n": n, "seed": seed, "scales": scales, "thorough": t})));
+                }
+            }
+        }
+        // ---- the larger lattices
+        lattice_jobs(&mut jobs, true, "full", 4, 3, &variants, target, seed);
+        lattice_jobs(&mut jobs, false, "full", 3, if t { 5 } else { 4 }, &variants, target, seed);
+        if t {
+            lattice_jobs(&mut jobs, true, "full", 4, 5, &variants, target, seed);
+            lattice_jobs(&mut jobs, true, "full", 5, 3, &variants, target, seed);
+            lattice_jobs(&mut jobs, false, "full", 4, 3, &variants, target, seed);
+            lattice_jobs(&mut jobs, true, "tridiag", 6, 5, &unit, target, seed);
+        }
+        let _ = &unit;
+        Plan {
+            jobs,
+            budget_s: if t { 2700 } else { 40 },
+            case_deadline_ms: 20_000,
+            floors: vec![],
+            bounds: json!({
+                "scales": scales.iter().map(|s| format!("2^{}", s)).collect::<Vec<_>>(),
+                "widths": ["f64", "f32"],
+            }),
+        }
+    }
+
+    fn run(&self, job: &Job) {
+        match job.kind() {
+            "lat" => lattice_case(job),
+            "fam" => family_case(job),
+            other => panic!("unknown job kind {}", other),
+        }
+    }
+
+    fn rule(&self) -> String {
+        "one execution = one (matrix, solver, power-of-two scale, width) given to the real evd; non-trivial = the solver returned and the matrix has a non-zero off-diagonal entry; distinct = distinct digest of (solver, width, n, returned real and imaginary parts divided by the scale and rounded to 9 significant digits)".into()
+    }
+
+    fn assumptions(&self) -> Vec<String> {
+        vec![
+            "residuals, traces and reference spectra are evaluated in f64 (also for f32 inputs); the input seen by the oracle is the exact f64 image of the matrix handed to the library".into(),
+            "no RNG on the explored paths (evd draws nothing); the harness uses no HashMap".into(),
+            "harness profile: release with overflow-checks and debug-assertions on (the arithmetic of the dev/test profile)".into(),
+        ]
+    }
+}
+
+fn main() {
+    mc::main(C02)
+}
+
+#[allow(dead_code)]
+fn _v(_: Value) {}
